@@ -122,6 +122,28 @@ func driveReshare(rc *RunCtx) {
 	if rc.Failed() {
 		return
 	}
+	if sc.Str("newids", "") == "congruent" {
+		// two new members whose ids are congruent modulo the group order would get the same share: every
+		// old member must refuse to deal (and then nothing is erased), or the outcome must still be sound
+		refused := 0
+		for _, n := range pr.Olds {
+			if n.StartErr != nil {
+				refused++
+			}
+		}
+		if refused == len(pr.Olds) {
+			for i, n := range pr.Olds {
+				if pr.oldXi(i).Sign() == 0 {
+					rc.Fail("erase-before-ack", "old member %s refused the new committee's ids and still erased its share", n.Name)
+					return
+				}
+			}
+			rc.Res.Probes["inadmissible_new_ids_refused"]++
+			rc.Res.Nontrivial = true
+			rc.Res.Sample = map[string]interface{}{"proto": pr.Proto, "newids": "congruent", "outcome": "refused by every old member"}
+			return
+		}
+	}
 	if mode == "crash" {
 		for _, n := range w.Nodes {
 			if n.Rand.Fired && !n.Crashed {
@@ -342,6 +364,10 @@ func genC04(tier string, seed uint64, run int) *Scenario {
 	} else {
 		p["signsubsets"] = 4
 		p["undersized"] = true
+	}
+	if run%16 == 3 {
+		p["newids"] = "congruent" // an inadmissible new committee: the last id is congruent to the first modulo q
+		mode = 0
 	}
 	sc := &Scenario{Check: "C04", Kind: "reshare", Seed: seed, Run: run, P: p}
 	sc.Sched = GenSched(r, nodes, true, false)
